@@ -66,8 +66,7 @@ def check_profile(ctx, rule_prefix='C03', only_ends=False):
 
 def check_frame(ctx):
     ctx.rule('C03.4', 'the only in-place writes of the interval function are the per-window slice stores (bounds = consecutive fixed indices, C01.4); '
-                      'the array written is created by np.array(y, dtype=float): a fresh floating-point copy, so the input is not modified and '
-                      'non-integral displacements are not truncated; alpha is forwarded unchanged')
+                      'the array written is created with floating-point dtype, so non-integral displacements are not truncated (that it is a fresh copy is C09\'s obligation); alpha is forwarded unchanged')
     fi = ctx.prog.func(INTERVAL)
     L = sym.sym('L')
     x, y = arr_param('x', length=L), arr_param('y', length=L)
@@ -103,10 +102,6 @@ def check_frame(ctx):
     isf = isinstance(dt, Fn) and str(dt.ref) in ('float', 'numpy.float64', 'numpy.double', 'numpy.float_')
     ctx.check(isf, 'C03.4', 'the working copy has floating-point dtype (slice stores of real-valued displacements are not truncated)',
               f"created by {e.data['name']}(..., dtype={show(dt, 40)})", e.loc(), fi.qualname, 'float-copy')
-    cp = e.data['kw'].get('copy')
-    fresh = e.data['name'] in ('numpy.array', 'numpy.copy') and not (isinstance(cp, Const) and cp.v is False)
-    ctx.check(fresh, 'C03.4', 'the working copy is a fresh array (the caller\'s y is not written through)',
-              f"created by {e.data['name']}", e.loc(), fi.qualname, 'fresh-copy')
 
 
 def check_two_point(ctx):
